@@ -1,11 +1,11 @@
-HOOK_COMMITS = ["f359e01", "777d166", "7617359", "b305671", "d2c6b54"]
+HOOK_COMMITS = ["f359e01", "777d166", "7617359", "b305671", "d2c6b54", "18a3e5c"]
 NOT_APPLICABLE = {}
 TEXTS = {
     "C01": {
         "text": "Lean 4 theorem C01_format: for every well-formed UTF-8 input, configuration, parser behaviour and every wrapper behaviour "
                 "satisfying the frame contract, the formatter returns an output and it has the same non-blank characters in the same order as the input up to ASCII "
                 "case (case_changes_confined: a letter changes case only inside a parser-typed keyword, lower-cased as a whole, or inside the name span of a compiler directive; every other rule changes blanks only, exactly); proved through exact models of lexer, content rules, pipeline glue and reconstructor (for every counter "
-                "assignment). Model tied to the code by per-stage differential execution; contract clauses evaluated on every case.",
+                "assignment). C01_format_any_search: with the exact model of the wrapper stage around an arbitrary search (Model/WrapStage, compared with the real stage on every case: wp, wcn, sx) no wrapper contract is assumed at all. Model tied to the code by per-stage differential execution; contract clauses evaluated on every case.",
         "design_ref": "DESIGN.md section 5 (C01)",
         "note": "Assumes (checked per case by the driver): WrapFrame (wrapper changes only blanks inside contents and keeps the token "
                 "vector) (the 'no dangling E3 byte in token contents' side condition is now a theorem: lex_total + lex_char_boundaries + valid_nd). "
@@ -36,9 +36,9 @@ TEXTS = {
     "C05": {
         "text": "Lean theorem for the rendering of first-token counters; block structure itself decided by a generator-marked structure "
                 "oracle (first-on-line, one unit deeper than the opener's line, closers at the opener's indentation, begin under "
-                "always_wrap) on every generated program (partial).",
-        "design_ref": "DESIGN.md section 5 (C05)",
-        "note": "The grammar knowledge of the parser is not modelled. Known finding F21.",
+                "always_wrap) on every generated program (partial). The parser's control flow (which decides lines and levels) is an exact Lean model compared with the real parser on every case (pfull stream), and so are the consolidators (cl) and the wrapper stage around the search (wp).",
+        "design_ref": "DESIGN.md section 5 (C05), 12.2",
+        "note": "That the modelled grammar puts the statements of the property on lines of the stated levels is decided by the structure oracle, not by a theorem. Known findings F21, F32.",
         "technique": "Lean 4 proof of rendering + specification-level oracle from the generator's AST marks",
     },
     "C06": {
@@ -61,7 +61,7 @@ TEXTS = {
     },
     "C04": {
         "text": "Lean theorems: the scanner returns a token list on every input (lex_never_fails: fuel suffices, every token is non-empty and in range) and slices only at character boundaries of well-formed UTF-8 (lex_slices_on_char_boundaries); linear pass count; reference validity of the line builder; totality of every model function; "
-                "for the unmodelled control flow (parser, wrapper search) a monitor: catch_unwind + hang detector per case on a debug "
+                "the whole parser is an exact, total, fuel-bounded Lean model (pfull stream: it answers on every case - no panic site reached, fuel never exhausted - and agrees with the real parser); for the real control flow (parser, wrapper search) a monitor: catch_unwind + hang detector per case on a debug "
                 "build, deterministic work counters against linear bounds, enumeration of all token sequences up to length 3 "
                 "(thorough). Partial by nature: termination of the parser's and the search's own loops is observed, not proved.",
         "design_ref": "DESIGN.md section 5 (C04)",
@@ -82,7 +82,7 @@ TEXTS = {
         "text": "Lean theorems C07_format (whole pipeline: for every input, parser behaviour and wrapper that keeps ignored tokens, a run of marked tokens is in the output contiguously with its scanned whitespace and text) and verbatim_emitted: the reconstructor model emits every run of ignored tokens byte for byte for every counter "
                 "assignment (under a decidable no-safety-net side condition, tallied per case); ignored tokens cannot be rewritten. The "
                 "toggle recogniser, marking, void step and reconstructor models are tied to the code by differential execution; a "
-                "substring-equality oracle runs on every case, including a family that places toggle comments between arbitrary tokens.",
+                "substring-equality oracle runs on every case, including a family that places toggle comments between arbitrary tokens. C07_format_any_search: with the exact model of the wrapper stage around an arbitrary search the wrapper hypothesis is a theorem.",
         "design_ref": "DESIGN.md section 5 (C07)",
         "note": "Asm bodies rely on the real parser's AsmInstruction lines (taken from the implementation in every case). Known finding F4 "
                 "(lone-CR line comment inside a region). Trusted: Lean kernel, translator, harness, hand-written model.",
@@ -91,8 +91,8 @@ TEXTS = {
     "C08": {
         "text": "Lean theorems on the reconstructor for every token list with canonical counters: gap shape (none/one space, or 1-2 breaks "
                 "plus whole indentation units), whole-unit indentation, end-of-file newline, spacing rule values <= 1, and after TokenSpacing no token is preceded by more than one space whatever the original spacing (spacing_at_most_one, via layout invariance). Exact models of the "
-                "rules feeding the counters are differentially checked; a line-scanner oracle checks the real output of every case.",
-        "design_ref": "DESIGN.md section 5 (C08)",
+                "rules feeding the counters are differentially checked; a line-scanner oracle checks the real output of every case. no_spaces_at_line_start: for every search the exact model of the wrapper stage (wp/wcn correspondence) leaves no spaces before a token that starts a line.",
+        "design_ref": "DESIGN.md section 5 (C08), 12.2",
         "note": "The canonical-counters premise is the wrapper contract (tallied per case, not proved for the search); known findings F5, "
                 "F6, F13, F14, F15 are recorded classes. Trusted: Lean kernel, translator, harness, model.",
         "technique": "Lean 4 proof over executable model + differential correspondence + direct oracle",
